@@ -71,6 +71,11 @@ CHECKS["C17"] = dict(
    text="History search with invariants: generated sequences over the Data mutation API with valid and invalid arguments (add/remove/reorder/rename/update_id/update_components/update_values_from_data/coords/label), on bare data, data with a hub and data in a collection; after every step all components have the data's shape, there is one pixel (and, with coords, one world) attribute per dimension, ids are unique, name lookup follows the documented precedence, op-specific postconditions hold, and the structural messages seen on the hub correspond exactly to the difference between the component lists before and after.",
    note="Trusted: the invariants and diff logic in pbt/props/c17.py; only messages named in message.py are asserted; pixel/world ids are never removed by hand.",
    ref="DESIGN.md section 4 C17")
+CHECKS["C09"] = dict(
+   technique="property-based testing (Hypothesis) of roi_to_subset_state against the exact-geometry oracle at plotted positions",
+   text="Generated-input search with an explicit oracle: tables with numeric (incl. NaN) and categorical axes in all four combinations and regions of every 2-d kind with edges placed around the integer category positions are turned into selections the way the viewers do; each element must be selected exactly when its plotted position (category index for categorical axes, computed by the harness) lies in the region according to the signed-distance oracle, boundary band excepted.",
+   note="Trusted: pbt/oracles/geometry.py; band widened by the 100-gon error where the code polygonises; category order = sorted unique labels.",
+   ref="DESIGN.md section 4 C09")
 NOT_APPLICABLE = []
 
 def main():
